@@ -85,8 +85,10 @@ def _observer_classes():
         def reset(self):
             self.log.append(entry(self, 1, None))
 
+    from job_shop_lib.dispatching.feature_observers import IsReadyObserver
+
     return [HistoryObserver, UnscheduledOperationsObserver, MakespanReward, IdleTimeReward,
-            Rec, Rec2]
+            Rec, Rec2, IsReadyObserver]
 
 
 _CLASSES = None
@@ -114,6 +116,8 @@ def enc_obs(o, dispatcher):
         return [4, 1, list(o.log)]
     if isinstance(o, cls[5]):
         return [4, 0, list(o.log)]
+    if isinstance(o, cls[6]):
+        return [5]
     raise TypeError(o)
 
 
